@@ -236,7 +236,7 @@ impl Leg for GiantRecs {
                 let giant = prop_oneof![
                     2 => gen::giant(60_000, 3_400_000, b"ACGTN".to_vec()),
                     1 => (prop::sample::select(b"ACGT".to_vec()), ((1usize << 24) + 8)..=((1usize << 24) + 3_000), proptest::collection::vec((any::<u32>(), prop::sample::select(b"ACGTN".to_vec())), 0..=2))
-                        .prop_map(|(b, len, edits)| gen::Giant { unit: crate::util::Bytes(vec![b]), len, edits, rand_seed: None }),
+                        .prop_map(|(b, len, edits)| gen::Giant { unit: crate::util::Bytes(vec![b]), len, edits, rand_seed: None, gaps: Vec::new() }),
                 ];
                 (gen::records(p), giant).prop_map(move |(recs, giant)| Case { recs, cont: Container::plain_fasta(), k, s, norm, threads, mem: Mem::Max, giant: Some(giant), via_cli, cohabitant: None, stale: 0 })
             })
